@@ -34,8 +34,8 @@ check("C18", "pool-shuttle", "exploration",
       "Trusts shuttle's model of std Mutex/Condvar; wait_timeout never times out under shuttle so the time-out branch is not explored; refreshes are sequential (one compute_cache at a time per prover).",
       "DESIGN.md section 4 C18, section 3 E7")
 check("C14", "net-sim", "exploration",
-      "deterministic simulation with fault injection: seeded schedules of aggregator ticks, chain progress, registrations, signature deliveries (loss, duplication, reordering, delay, damage), expiry and restarts; invariants after every event against an independent reference model and the public client verifier",
-      "Seeded search over event histories of the real aggregator; after every event each stored certificate is re-fetched over the aggregator's own HTTP route and verified with its whole chain by the real client verifier, and the new certificates are checked against an independent model (quorum recount by producing key, aggregate key from acknowledged registrations, parent link, double certification, epoch gap). Evidence over the sampled histories, not proof.",
+      "deterministic simulation with fault injection: seeded schedules of aggregator ticks, chain progress (epochs, immutable files, blocks; also arriving inside a cycle), registrations, signature deliveries through HTTP and the message queue (loss, duplication, reordering, delay, damage, batches), expiry, restarts and operator re-configuration of the protocol parameters; invariants after every event against an independent reference model and the public client verifier",
+      "Seeded search over event histories of the real aggregator; after every event each stored certificate is re-fetched over the aggregator's own HTTP route and verified with its whole chain by the real client verifier, and the new certificates are checked against an independent model (quorum recount by producing key, aggregate key from the registrations acknowledged while their round was open, protocol parameters as first published for the epoch, parent link, double certification, epoch gap); no registration is acknowledged for a round that is not the open one. Evidence over the sampled histories, not proof.",
       "Cardano node, digester, uploader, transport and signers are doubles (listed in evidence); timestamps are real but excluded from control flow; a crash is a process kill.",
       "DESIGN.md section 4 C14, section 3 E1")
 check("C16", "net-sim", "exploration",
@@ -90,14 +90,14 @@ check("C13", "import-sim", "exploration",
 
 check("C06", "net-sim", "exploration",
       "deterministic simulation of the registration network (arrival permutations, duplicates, re-registration, partial registration, aggregator restarts between registrations) with a multi-node agreement invariant over three real computation paths and a paired-run history check (same history, registrations arriving in the opposite order)",
-      "In every simulated epoch the aggregate key in the aggregator's certificates is compared with (a) the key derived from the acknowledged registrations, (b) the key a signer derives from the signer list published on /epoch-settings (JSON in the loop) in served, reversed, shuffled and JSON-round-tripped order, together with total stake and each party's signer slot, (c) the message the client's MessageBuilder re-computes from the downloaded stake-distribution artifact; distinct registration sets must give distinct keys; every run is re-executed with the registration deliveries of each round reversed and must give bit-identical keys per epoch.",
+      "In every simulated epoch the aggregate key in the aggregator's certificates is compared with (a) the key derived from the acknowledged registrations, (b) the key a signer derives from the signer list published on /epoch-settings (JSON in the loop) in served, reversed, shuffled and JSON-round-tripped order, together with total stake and each party's signer slot, (c) the message the client's MessageBuilder re-computes from the downloaded stake-distribution artifact; distinct registration sets must give distinct keys; (d) key-registration sessions fed with the epoch's registrations in seeded orders with repeated (refused) arrivals; every run is re-executed with the registration deliveries of each round reversed and must give bit-identical keys per epoch.",
       "Signers are light actors built on the repository's SignerBuilder / ProtocolInitializer (the real signer node's epoch service is not in the loop); permuted groups never span a tick, because arrival relative to the rotation of the registration round matters by design.",
       "DESIGN.md section 4 C06")
 
 check("C20", "net-sim", "exploration",
-      "deterministic simulation with real signer nodes: the repository's signer state machine, runner, certifier, single signer, epoch service and SQLite repositories (real KES signing, seeded key material through hook H4) tick under a seeded scheduler against the real aggregator over a simulated link (request lost, acknowledgement lost, duplicated, aggregator unreachable, stale epoch settings), with per-node chain-view lag and restarts of signers and aggregator; exactly-once / right-key / acceptance oracle over the recorded wire history, bounded liveness after faults stop",
+      "deterministic simulation with real signer nodes: the repository's signer state machine, runner, certifier, single signer, epoch service and SQLite repositories (real KES signing, seeded key material through hook H4) tick under a seeded scheduler against the real aggregator over a simulated link (request lost, acknowledgement lost, duplicated, aggregator unreachable, stale epoch settings), with per-node chain-view lag (also catching up in the middle of a cycle), restarts of signers and aggregator and operator re-configuration of the protocol parameters; exactly-once / right-key / acceptance oracle over the recorded wire history, bounded liveness after faults stop",
       "Every request of every signer is recorded on the wire together with what the aggregator answered and what the signer was told. Per (signer, signed entity, beacon): at most one acknowledged publication, un-acknowledged retries carry the identical signature; every published signature verifies, under an independent statement of the epoch offsets, with the key that signer registered (as acknowledged by the aggregator) for the epoch whose stake distribution is in force; it is accepted by the real aggregator whenever the matching round is open; no publication without an eligible registration; after three fault-free quiescence phases every registered signer is back in ReadyToSign.",
-      "CardanoTransactions / CardanoBlocksTransactions signing is not exercised (dumb block scanner); retry / delay decorators of the signature publisher are not wired (retries are the scheduler's); an aggregator that has just been restarted and has not cycled yet may reject (transient, counted).",
+      "CardanoTransactions signing runs over a block scanner double (no forks), CardanoBlocksTransactions is not exercised; the production wiring function of the signer (DependenciesBuilder::build) and the retry / delay decorators of the signature publisher are not wired (retries are the scheduler's); an aggregator that has just been restarted and has not cycled yet may reject (transient, counted).",
       "DESIGN.md section 4 C20, section 6 H4")
 
 def manifest():
